@@ -248,6 +248,8 @@ def run_one(rng, counters):
         if not opts["use_ref"]:
             p["allow_shiftable"] = False
         P = rng.choice([2, 2, 2, 3, 4])
+        if nsamp == 2 and P == 2 and rng.random() < 0.5:
+            p["names_per_sample"] = True  # each read group numbers its reads from 0: names recur across the samples
         opts["ploidy"] = P
         if P == 2:
             sim = genome.simulate(rng, tmp, p)
@@ -306,6 +308,8 @@ def run_one(rng, counters):
                 return [], False, desc
             return [{"mech": "crash:" + last.split(":")[0], "msg": "run_haplotag raised: " + tb[-1500:]}], False, desc
         counters["runs_ok"] = counters.get("runs_ok", 0) + 1
+        if p.get("names_per_sample"):
+            counters["runs_with_names_recurring_across_samples"] = counters.get("runs_with_names_recurring_across_samples", 0) + 1
         counters["runs_ploidy_%d" % opts["ploidy"]] = counters.get("runs_ploidy_%d" % opts["ploidy"], 0) + 1
         if opts.get("regions"):
             counters["runs_with_regions"] = counters.get("runs_with_regions", 0) + 1
@@ -339,7 +343,13 @@ def run_one(rng, counters):
         infos = {s: phase_info(doc, s) for s in targets}
         by_name = {}
         for chrom, sample, name, vars_, bx in cap:
-            by_name[(chrom, name)] = (sample, vars_, bx)
+            by_name[(chrom, sample, name)] = (sample, vars_, bx)
+
+        def sample_of(a):
+            if opts.get("ignore_read_groups") or not a.has_tag("RG"):
+                return targets[0] if len(targets) == 1 else None
+            return a.get_tag("RG")[3:]
+
         nontrivial = False
         linked = opts["bx"] and not opts["ignore_linked_read"]
         seen_out = set()
@@ -356,7 +366,7 @@ def run_one(rng, counters):
                 continue
             if linked:
                 continue
-            key = (chrom, a.query_name)
+            key = (chrom, sample_of(a), a.query_name)
             if key not in by_name:
                 outs = {None}
                 scores = {}
@@ -433,7 +443,7 @@ def run_one(rng, counters):
                             want = ta
                         if tb_ != want:
                             # a read whose evidence ties between two phase sets may legitimately move
-                            key = (a.reference_name, a.query_name)
+                            key = (a.reference_name, sample_of(a), a.query_name)
                             if key in by_name:
                                 sample, vars_, bx = by_name[key]
                                 outs, scores = decide(vars_, infos.get(sample) or {}, a.reference_name)
